@@ -19,12 +19,16 @@ for l in open(os.path.join(VERIF, "properties.jsonl")):
 EXTRA = {"ractor/src/actor/actor_properties.rs": ["C01", "C02", "C03", "C05", "C06", "C07", "C08", "C09", "C10", "C11"], "ractor/src/actor.rs": ["C02", "C03", "C06", "C07", "C09", "C10", "C12", "C19"],
          "ractor/src/actor/actor_cell.rs": ["C01", "C02", "C07", "C09", "C11", "C12"], "ractor/src/thread_local/inner.rs": ["C02", "C03", "C06", "C07", "C09", "C19"],
          "ractor/src/factory/factoryimpl.rs": ["C12", "C13", "C14", "C15"], "ractor/src/factory/worker.rs": ["C13", "C14", "C15"], "ractor/src/pg.rs": ["C06", "C08", "C11", "C20"],
-         "ractor_cluster/src/node/node_session.rs": ["C17", "C18", "C19", "C20"], "ractor_cluster/src/net/session.rs": ["C19", "C20"], "ractor/src/time.rs": ["C12"], "ractor/src/actor/supervision.rs": ["C02", "C04", "C05", "C07", "C08"], "ractor_cluster/src/node.rs": ["C17", "C18"], "ractor/src/port/output.rs": ["C16"], "ractor/src/rpc.rs": ["C09"]}
+         "ractor_cluster/src/node/node_session.rs": ["C17", "C18", "C19", "C20"], "ractor_cluster/src/net/session.rs": ["C19", "C20"], "ractor/src/time.rs": ["C12"], "ractor/src/message.rs": ["C02"], "ractor/src/registry.rs": ["C08", "C10"], "ractor/src/serialization.rs": ["C19"], "ractor/src/actor/supervision.rs": ["C02", "C04", "C05", "C07", "C08"], "ractor_cluster/src/node.rs": ["C17", "C18"], "ractor/src/port/output.rs": ["C16"], "ractor/src/rpc.rs": ["C09"]}
 SCRATCH_NAME = "r"
 for a in sys.argv[1:]:
     if a.startswith("--scratch="):
         SCRATCH_NAME = a.split("=", 1)[1]
 explicit_props = any(a.startswith("--props") for a in sys.argv[1:])
+ONLY = None          # --only=C01,C02: of the properties a refactoring is relevant for, run just these (skip it if none is left)
+for a in sys.argv[1:]:
+    if a.startswith("--only="):
+        ONLY = set(a.split("=", 1)[1].split(","))
 def props_for(patch):
     files = set(re.findall(r"^\+\+\+ b/(\S+)", open(patch).read(), re.M))
     out = []
@@ -50,6 +54,12 @@ for name in sorted(os.listdir(os.path.join(VERIF, "refactorings"))):
     n += 1
     out = []
     todo = (props if explicit_props else props_for(os.path.join(sd, "patch.diff")))
+    if ONLY is not None:
+        todo = [p_ for p_ in todo if p_ in ONLY]
+        if not todo:
+            shutil.rmtree(d)
+            n -= 1
+            continue
     env = dict(os.environ, RACTOR_REPO=d, VERIF_EVIDENCE_DIR=os.path.join(VERIF, ".cache", "scratch-evidence"))
     # build the facts once (first check), then run the remaining checks in parallel
     def one(prop):
